@@ -74,7 +74,7 @@ Proof.
   destruct (leaf_accepts_inv l s row Ea) as [Hsel Hrow].
   pose proof (leaf_fits_inv l s Hf) as [[Hc Hr] [Hn [Hcur Hmode]]].
   assert (Hfit' : leaf_fits (leaf_moved l s col row) s = true).
-  { unfold leaf_fits in *. cbn [leaf_moved lminw lbox lcur lsel lapi].
+  { unfold leaf_fits in *. cbn [leaf_moved lminw lbox lcur lsel lapi lfw].
     assert (En : leaf_nrows (leaf_moved l s col row) s = leaf_nrows l s) by reflexivity. rewrite En.
     apply andb_true_iff in Hf as [Hf _]. rewrite Hf. cbn [andb]. rewrite Hsel, Hm. cbn [andb].
     destruct (lbox l); cbn [orb]; lia. }
